@@ -75,6 +75,9 @@ type Explorer struct {
 	Case func(c *Chooser)
 	// Visit is called after each execution; returning false stops the search.
 	Visit func(c *Chooser) bool
+	// External, when set, runs the execution elsewhere (e.g. in a fresh process) for the given
+	// choice prefix and returns the decision points it took; Case is then not used.
+	External func(prefix []int) []Point
 	Stats Stats
 	stop  bool
 }
@@ -89,7 +92,16 @@ func (e *Explorer) explore(prefix []int, shape []Point) {
 		return
 	}
 	c := &Chooser{prefix: prefix}
-	e.Case(c)
+	if e.External != nil {
+		c.Trace = e.External(prefix)
+		for _, p := range c.Trace {
+			if p.Dev && p.Taken != 0 {
+				c.devs++
+			}
+		}
+	} else {
+		e.Case(c)
+	}
 	// replay must reproduce the recorded arities/labels of the parent execution
 	for i := 0; i < len(prefix)-1 && i < len(shape) && i < len(c.Trace); i++ {
 		if shape[i].Arity != c.Trace[i].Arity || shape[i].Label != c.Trace[i].Label {
